@@ -31,6 +31,25 @@ def gen(rng, tier):
         k = len(cmds)
         cmds += ["readdirs 0 x2f7573722f657463 x2f657463 %s x636f6e66 x3d x23" % enc(b"big"), "dump 0", "getall 0"]
         out.append(Scenario(cmds, [False] * k + [True, True, True], tags=("many-dropins",)))
+    # no suffix and a drop-in directory format that nests BELOW the configuration name ("/conf.d", "/"): where the main
+    # file "<layer>/<name>" is a regular file, "<layer>/<name>/conf.d" cannot be listed (not a directory) — that is "no
+    # drop-ins there", never a reason to fail the read
+    for _ in range(40 if tier == "quick" else 1500):
+        name = rng.choice([b"foo", b"bar"]); sfx = rng.choice([None, b""])
+        cd = rng.choice([[b"/conf.d", b".d"], [b".d", b"/"], [b"/"], [b"/conf.d"], [b"/conf.d", b"/"]])
+        cmds = []
+        for li, d in enumerate([b"/usr/etc", b"/etc"]):
+            cmds.append(trees.fsdir(d))
+            if rng.random() < 0.7: cmds.append(trees.fsfile(d + b"/" + name, b"main=L%d\nk=L%d\n" % (li, li)))
+            if rng.random() < 0.5:
+                cmds.append(trees.fsdir(d + b"/" + name + b".d"))
+                for nm in rng.sample([b"10-a", b"9-b", b"x.conf", b"z"], rng.randrange(0, 3)):
+                    cmds.append(trees.fsfile(d + b"/" + name + b".d/" + nm, b"k=L%d-" % li + nm + b"\n[S]\n" + nm + b"=1\n"))
+        k = len(cmds)
+        args = "%s %s %s %s x3d x23" % (enc(b"/usr/etc"), enc(b"/etc"), enc(name), enc(sfx))
+        cmds += ["confdirs " + ",".join(enc(x) for x in cd), "readdirs 0 " + args, "dump 0", "history " + args,
+                 "newopts 1 " + enc(b"PARSING_DIRS=/usr/etc:/etc;CONFIG_DIRS=" + b":".join(cd)), "readconfig 1 - - %s %s x3d x23" % (enc(name), enc(sfx)), "dump 1"]
+        out.append(Scenario(cmds, [False] * (k + 1) + [True, True, True, False, True, True], tags=("nested-format-below-a-file",)))
     # both names NULL must be refused, not crash
     out.append(Scenario(["newopts 0 " + enc(b"ROOT_PREFIX=/r"), "readconfig 0 - - - x636f6e66 x3d x23", "dump 0"], tags=("nullnames",)))
     out.append(Scenario(["readdirs 0 x2f75 x2f65 - x636f6e66 x3d x23", "dump 0"], tags=("nullnames",)))
